@@ -47,6 +47,18 @@ JSecUpd == {RR(NB, "IN", "DS", 300, 2), RR(NB, "NONE", "DS", 0, 1), RR(NB, "ANY"
             RR(NA, "IN", "DNSKEY", 300, 2), RR(AP, "NONE", "CDS", 0, 1), RR(AP, "ANY", "DNSKEY", 0, 0),
             RR(AP, "ANY", "CDNSKEY", 0, 0)}
 JSec1 == {[pre |-> <<>>, upd |-> <<u>>] : u \in JSecUpd}
+\* a zone file with a record whose owner is OUTSIDE the zone (glue for a name server elsewhere): the
+\* parser and the zone take it, the initial dump writes it, a restart has to read it back
+ZG == ZS \cup {<<<<"ns1", "example", "net">>, "A", 9>>}
+\* zones the server signs itself (Signeds = {TRUE}): a DNSKEY somebody else publishes at the apex by
+\* update (a stand-by key: not re-created at start-up, the journal has to bring it back), the
+\* replace-everything idiom <apex ANY ANY>, ordinary updates around them
+JSg1 == {[pre |-> <<>>, upd |-> <<RR(AP, "IN", "DNSKEY", 300, 1)>>],
+         [pre |-> <<>>, upd |-> <<RR(AP, "IN", "DNSKEY", 300, 2), RR(NB, "IN", "A", 300, 1)>>]}
+JSg2 == {[pre |-> <<>>, upd |-> <<RR(AP, "ANY", "ANY", 0, 0)>>],
+         [pre |-> <<>>, upd |-> <<RR(AP, "ANY", "ANY", 0, 0), RR(AP, "IN", "A", 300, 1)>>],
+         [pre |-> <<>>, upd |-> <<RR(NA, "IN", "A", 300, 2)>>],
+         [pre |-> <<>>, upd |-> <<RR(NA, "NONE", "A", 0, 1), RR(NA, "IN", "CNAME", 300, 1)>>]}
 JMsgs  == JMsgs1 \cup JMsgs2 \cup JMsgs3 \cup JRej
 JSmall == JMsgs1 \cup JMsgs3 \cup JRej
 =============================================================================
